@@ -731,6 +731,11 @@ macro_rules! interp {
                                 ("vec", "const") => pc = Some(regs[r].as_ptr()), ("vec", "mut") => pm = Some(regs[r].as_mut_ptr()),
                                 ("slice", "const") => pc = Some(regs[r].as_slice().as_ptr()),
                                 ("slicemut", "const") => pc = Some(regs[r].as_mut_slice().as_ptr()), ("slicemut", "mut") => pm = Some(regs[r].as_mut_slice().as_mut_ptr()),
+                                // the same through the generic traits (UFCS: the trait's method, not the inherent one)
+                                ("tvec", "const") => pc = Some(<$V as ::soa_derive::SoAVec<T>>::as_ptr(&regs[r])), ("tvec", "mut") => pm = Some(<$V as ::soa_derive::SoAVec<T>>::as_mut_ptr(&mut regs[r])),
+                                ("tslice", "const") => { let sl = regs[r].as_slice(); pc = Some(<$S<'_> as ::soa_derive::SoASlice<T>>::as_ptr(&sl)) }
+                                ("tslicemut", "const") => { let sm = regs[r].as_mut_slice(); pc = Some(<$SM<'_> as ::soa_derive::SoASliceMut<T>>::as_ptr(&sm)) }
+                                ("tslicemut", "mut") => { let mut sm = regs[r].as_mut_slice(); pm = Some(<$SM<'_> as ::soa_derive::SoASliceMut<T>>::as_mut_ptr(&mut sm)) }
                                 ("ref", "const") => pc = Some(regs[r].index(fi).as_ptr()),
                                 ("refmut", "const") => pc = Some(regs[r].index_mut(fi).as_ptr()), ("refmut", "mut") => pm = Some(regs[r].index_mut(fi).as_mut_ptr()),
                                 // windows [a, b) of the views, directly and rebuilt from (pointer bundle, length)
